@@ -202,6 +202,7 @@ def corpus():
     P.append(("dotted_collision_a", [op("PROTO", 4)] + SG("os", "path.join") + SG("os.path", "join") + [op("TUPLE2"), op("STOP")]))
     P.append(("dotted_collision_b", [op("PROTO", 4)] + SG("pkg.sub", "run") + SG("pkg", "sub.run") + [op("TUPLE2"), op("STOP")]))
     P.append(("same_import_twice", G("os", "getcwd") + G("os", "getcwd") + [op("TUPLE2"), op("STOP")]))
+    P.append(("four_equal_unused_calls", (G("time", "time") + [op("EMPTY_TUPLE"), op("REDUCE"), op("POP")]) * 4 + [op("NONE"), op("STOP")]))
     P.append(("inst", [op("MARK"), u("a"), op("INST", ("os", "system")), op("STOP")]))
     P.append(("inst_popped", [op("MARK"), u("a"), op("INST", ("os", "system")), op("POP"), op("NONE"), op("STOP")]))
     P.append(("binpersid", [u("pid"), op("BINPERSID"), op("STOP")]))
